@@ -19,6 +19,7 @@ from bfsa.symexec import Exec
 from bfsa.terms import C, NONE, Term, cval, is_const, mk, show, sym
 
 from rules import adapter, c16stream
+from rules import stackrt
 
 LEVEL = "other"
 AESQ = "register_crypto_plugin.pyaes.aes"
@@ -480,7 +481,7 @@ def run(prog, chk, tier):
     adapter.adapter_rules(prog, chk, "C16")
     adapter.pad_rule(prog, chk, "C16")
     adapter.mac_definition_rules(prog, chk, "C16")
-    c16stream.run_all(prog, chk, "C16", tier)
+    stackrt.guarded(chk, "C16.modes-and-feeders", c16stream.run_all, prog, chk, "C16", tier)
     chk.assume("table expansion in the lane domain is licensed by the table audit of the same run (single TABLE_SPEC)")
     chk.assume("mode / feeder scenarios treat the block function as an uninterpreted E_k / D_k; this is licensed by the block and key-schedule rules of the same run")
     chk.assume("input lengths and splits of the mode / feeder scenarios are enumerated (listed in the evidence); contents, keys and IVs are universally quantified")
